@@ -3,7 +3,7 @@
    Not proved yet (tested by the oracle): the entries of the boundary operators against faces(),
    cofaces as the inverse of faces, basis = points of the closure, d.d = 0. *)
 From Coq Require Import String ZArith Bool Arith List.
-From SV Require Import Names NamesFacts ListFacts Rep Fresh Complex Atomic RepInv Reach.
+From SV Require Import Names NamesFacts ListFacts Rep Fresh Complex Atomic RepInv Reach Homology Filtration Gen World Small Sweeps.
 Import ListNotations.
 
 (* indexOf is the simplex's position in the listing of its order, orderOf that order *)
@@ -25,3 +25,17 @@ Proof.
   apply PeanoNat.Nat.ltb_lt in E. exfalso. apply (PeanoNat.Nat.lt_irrefl k). eapply PeanoNat.Nat.lt_le_trans; eauto.
 Qed.
 Print Assumptions C03_nothing_above_max.
+
+(* BOUNDED (computed by the kernel): the boolean viewsb -- shapes and entries of every boundary
+   operator against faces(), the 1 x n0 zero row for k = 0, the empty matrix above the maximum,
+   cofaces the inverse of faces, indexOf the listing position, basis = points of the closure,
+   boundary of a boundary empty -- for every complex on at most 4 labelled points, and after every
+   single deletion and every addition by basis applied to it *)
+Theorem C03_views_agree_upto4_partial : forall c, In c complexes4 ->
+  fam_eq (fam (build c)) (closure_of c) && wfb (build c) && viewsb (build c) = true.
+Proof. exact built_complexes_upto4. Qed.
+Print Assumptions C03_views_agree_upto4_partial.
+Theorem C03_views_agree_after_mutation_upto4_partial : forall c, In c complexes4 ->
+  chk_delete (build c) = true /\ chk_addb (build c) = true.
+Proof. intros c H. split; [now apply delete_upto4 | now apply addb_upto4]. Qed.
+Print Assumptions C03_views_agree_after_mutation_upto4_partial.
